@@ -96,7 +96,7 @@ Print Assumptions spec_container_constants_are_the_sources.
 
 (** non-vacuity: the specification decodes a real file (tests/files/good-1-check-crc32.xz) *)
 Example spec_decodes_a_real_file :
-  xz_decode_single 1000%positive
+  xz_decode_single 1000%positive false
     [253;55;122;88;90;0;0;1;105;34;222;54;2;0;33;1;8;0;0;0;216;15;35;19;1;0;5;72;101;108;108;111;10;2;0;6;87;111;114;108;100;33;10;0;67;163;162;21;0;1;36;13;48;40;223;175;144;66;153;13;1;0;0;0;0;1;89;90]
   = (Finished, [72;101;108;108;111;10;87;111;114;108;100;33;10], 68).
 Proof. vm_compute. reflexivity. Qed.
